@@ -235,7 +235,7 @@ def libcheck_enums():
     """enum sources of TokA / TokB exactly as compiled into libcheck (so that the model lexes the same definitions)"""
     txt = open(os.path.join(LIB, 'src', 'main.rs')).read()
     out = {}
-    for name in ('TokA', 'TokB'):
+    for name in ('TokA', 'TokB', 'TokC', 'TokD'):
         m = _re.search(r'(#\[derive\(Logos[^\n]*\n(?:#\[logos[^\n]*\n)*pub enum %s \{.*?\n\})' % name, txt, _re.S)
         out[name] = m.group(1)
     return out
@@ -252,7 +252,7 @@ def gen_history(R, src_len):
         elif r < 0.55:
             ops += ['snext', str(i)]
         elif r < 0.7:
-            n = R.choice([0, 1, 1, 2, 3, src_len, src_len + 1, 2 ** 64 - 1, 2 ** 63])
+            n = R.choice([0, 1, 1, 2, 3, src_len, src_len + 1, 2 ** 64 - 1, 2 ** 63, max(0, src_len - 1), max(0, src_len - 2), max(0, src_len - 3)])
             ops += ['bump', str(i), str(n)]
         elif r < 0.85:
             ops += ['clone', str(i)]
@@ -272,7 +272,7 @@ def check_c14(tier, seed, log=print):
     P.build_lean()
     bins = build_libcheck(LIBCFG[tier])
     enums = libcheck_enums()
-    caps = P.run_capture([enums['TokA'], enums['TokB']])
+    caps = P.run_capture([enums['TokA'], enums['TokB'], enums['TokC'], enums['TokD']])
     if any(c is None or c.verdict != 'ACCEPT' for c in caps):
         run.violation('setup', dict(what='libcheck token types not accepted by the derive'), no_input=True)
         return run.finish()
@@ -285,20 +285,31 @@ def check_c14(tier, seed, log=print):
         partial = 1 if R.random() < 0.2 else 0
         ops = gen_history(R, len(s))
         reqs.append('API %s %d %s' % (P.hexs(s), partial, ' '.join(ops)))
+    # the same over a [u8] source (two binary token types): every index <= len is a boundary there
+    bsrcs = [b'', b'a', b'ab \xff', b'\x80\x81a b', b'ab  cd', b'x\xc3', b'hello \xfe\xff z']
+    for k in range(n_hist // 2):
+        s = R.choice(bsrcs)
+        partial = 1 if R.random() < 0.2 else 0
+        ops = gen_history(R, len(s))
+        reqs.append('APIB %s %d %s' % (P.hexs(s), partial, ' '.join(ops)))
     # model: TokA's `Ws` leaf has the callback logos::skip (zoo callback kind 3)
     lines = ['CASE A'] + caps[0].dump
     ws = [i for i, l in enumerate(caps[0].leaves) if l[3] == 'Ws']
     for i in ws:
         lines.append('CB %d 3' % i)
     lines += ['CASE B'] + caps[1].dump
+    lines += ['CASE C'] + caps[2].dump
+    lines += ['CASE D'] + caps[3].dump
     for rq in reqs:
         t = rq.split(' ')
-        lines.append('Q API A B %s %s %s' % (t[1], t[2], ' '.join(t[3:])))
+        pair = 'A B' if t[0] == 'API' else 'C D'
+        lines.append('Q API %s %s %s %s' % (pair, t[1], t[2], ' '.join(t[3:])))
     ans = P.run_lean(lines, nproc=0)
     model = {}
     for rq in reqs:
         t = rq.split(' ')
-        model[rq] = ans.get('B API A B %s %s %s' % (t[1], t[2], ' '.join(t[3:])))
+        pair = 'A B' if t[0] == 'API' else 'C D'
+        model[rq] = ans.get('D API %s %s %s %s' % (pair, t[1], t[2], ' '.join(t[3:])))
     evals = 0
     nontriv = set()
     samples = []
@@ -339,7 +350,7 @@ def check_c14(tier, seed, log=print):
     run.coverage.update(dict(obligations=au['obligations'], discharged=au['discharged'], theorems=au['names'], axioms=au['axioms'],
                              checker_cmd=au['checker_cmd'], trusted_base=TRUSTED_BASE,
                              evaluations=evals, distinct_nontrivial=len(nontriv), op_mix=opcount, configs=list(bins),
-                             rule='random histories of next / spanned-next / bump (in range, out of range, overflowing) / clone / morph on a pool of lexers of two token types over one str source, ordinary and partial, '
+                             rule='random histories of next / spanned-next / bump (in range, out of range, overflowing) / clone / morph on a pool of lexers of two token types over one source (str: TokA/TokB; [u8]: TokC/TokD), ordinary and partial, '
                                   'run on the real Lexer (debug/release x default/forbid_unsafe; after every call span, slice == source[span], remainder == source[end..], extras are checked) and on the Lean pool model over the captured graphs of the same two definitions; non-trivial = history contains clone and morph',
                              samples=samples, model_vs_impl_disagreements=tie_dis))
     run.assumptions += ['extras are a constant carried along (the token types have no extras-mutating callbacks)',
